@@ -742,4 +742,192 @@ Section RefineTxn.
           repeat split; auto. lia.
   Qed.
 
+  (* ---------------------------------------------------------------- *)
+  (* Find *)
+
+  Theorem txn_find_refines n c oid h q sort skip limit :
+    ns_ok n (cat_ns c) -> user_ns h = true ->
+    sum_rel (fun tr l => map snd (t_matched tr) = l)
+            (txn_find matchf c h q sort skip limit)
+            (s_read matchf (mkS (abs_ns (cat_ns c)) oid) h q sort skip limit).
+  Proof.
+    intros Hok Hu. unfold txn_find, s_read, read_docs. cbn [ss_colls].
+    destruct (negb (valid_handle h true)); [reflexivity|].
+    rewrite (sc_get_abs _ _ Hu).
+    destruct (ns_get (cat_ns c) h) as [x|] eqn:Hn; cbn [option_map]; [|reflexivity].
+    destruct (ns_ok_get matchf _ _ _ _ Hok Hu Hn) as [[Hnd _] _].
+    rewrite abs_coll_eq. cbn [sc_docs].
+    rewrite (s_find_find_list matchf (c_docs x) q sort skip limit Hnd).
+    unfold coll_find, failr.
+    destruct (find_list matchf (c_docs x) q sort skip limit) as [l| | | |]; cbn [rmap bind sum_rel];
+      try reflexivity.
+    cbn [t_matched r_matched]. symmetry. apply retag_snd.
+  Qed.
+
+  (* ---------------------------------------------------------------- *)
+  (* CreateIndex / DropIndex / ListIndexes *)
+
+  Theorem txn_create_index_refines c g h name cf :
+    ns_ok (g_did g) (cat_ns c) ->
+    let '(c', r) := txn_create_index matchf c h name cf in
+    if s_valid h then
+      match r, s_create_index matchf (coll_or_new (abs_cat c g) h) name cf with
+      | inl nm, inl (sc', nm') =>
+          nm = nm' /\ abs_ns (cat_ns c') = sc_set (abs_ns (cat_ns c)) h sc' /\
+          ns_ok (g_did g) (cat_ns c')
+      | inr e, inr e' => e = e' /\ c' = c
+      | _, _ => False
+      end
+    else c' = c /\ r = inr EErr.
+  Proof.
+    intro Hok. unfold txn_create_index.
+    destruct (guard_write h) as [e|] eqn:Hg.
+    - destruct (guard_some h e Hg) as [-> Hv]. rewrite Hv. auto.
+    - pose proof (proj1 (guard_valid h) Hg) as Hv. rewrite Hv.
+      pose proof (valid_user h Hv) as Hu.
+      unfold abs_cat. rewrite (coll_or_new_abs c (g_oid g) h Hu).
+      destruct (ns_or_new_good matchf _ c h Hok Hu) as [Hinv [Hid Hlt]].
+      pose proof (sim_create_index matchf (ns_or_new c h) name cf Hinv) as Hsim.
+      destruct (coll_create_index matchf (ns_or_new c h) name cf) as [n' [nm|e]] eqn:Hci;
+        destruct (s_create_index matchf (abs_coll (ns_or_new c h)) name cf) as [[sc' nm']|e'];
+        cbn [out_rel] in Hsim; try contradiction.
+      + destruct Hsim as [Habs ->]. split; [reflexivity|]. cbn [cat_ns].
+        destruct (coll_create_index_inv matchf _ _ _ _ _ _ Hinv Hid Hlt Hci) as [Hinv' [Hid' [Hlt' _]]].
+        split.
+        * rewrite (abs_ns_set _ _ _ Hu), Habs. reflexivity.
+        * apply ns_ok_set; auto. intros _. split; [|split]; auto.
+      + auto.
+  Qed.
+
+  Lemma coll_eta (c : coll) : mkColl (c_docs c) (c_indexes c) = c.
+  Proof. destruct c; reflexivity. Qed.
+
+  Lemma filter_id_when_none_dropped (ixs : list (string * index)) :
+    map fst (filter (fun ni => negb (String.eqb (fst ni) "_id_")) ixs) = [] ->
+    filter (fun ni : string * index => String.eqb (fst ni) "_id_") ixs = ixs.
+  Proof.
+    induction ixs as [|[m ix] t IH]; [reflexivity|]. cbn [filter fst].
+    destruct (String.eqb m "_id_"); cbn [negb map].
+    - intro H. rewrite IH; auto.
+    - discriminate.
+  Qed.
+
+  Theorem txn_drop_index_refines n c h name :
+    ns_ok n (cat_ns c) ->
+    let '(c', r) := txn_drop_index c h name in
+    if s_valid h then
+      match sc_get (abs_ns (cat_ns c)) h with
+      | None => c' = c /\ r = inr EErr
+      | Some sc =>
+          match r, s_drop_index sc name with
+          | inl _, inl sc' => abs_ns (cat_ns c') = sc_set (abs_ns (cat_ns c)) h sc' /\ ns_ok n (cat_ns c')
+          | inr e, inr e' => e = e' /\ c' = c
+          | _, _ => False
+          end
+      end
+    else c' = c /\ r = inr EErr.
+  Proof.
+    intro Hok. unfold txn_drop_index.
+    destruct (guard_write h) as [e|] eqn:Hg.
+    - destruct (guard_some h e Hg) as [-> Hv]. rewrite Hv. auto.
+    - pose proof (proj1 (guard_valid h) Hg) as Hv. rewrite Hv.
+      pose proof (valid_user h Hv) as Hu.
+      rewrite (sc_get_abs _ _ Hu).
+      destruct (ns_get (cat_ns c) h) as [x|] eqn:Hn; cbn [option_map]; [|auto].
+      destruct (ns_ok_get matchf _ _ _ _ Hok Hu Hn) as [Hinv [Hid Hlt]].
+      pose proof (sim_drop_index x name) as Hsim.
+      pose proof (coll_drop_index_inv matchf x n name) as Hinvd.
+      destruct (coll_drop_index x name) as [x' [dropped|e]] eqn:Hcd;
+        destruct (s_drop_index (abs_coll x) name) as [sc'|e']; try contradiction.
+      + destruct (Hinvd x' (inl dropped) Hinv Hid Hlt eq_refl) as [Hinv' [Hid' [Hlt' _]]].
+        destruct dropped as [|d0 dr].
+        * (* nothing was dropped: the collection is unchanged *)
+          assert (Hx : x' = x).
+          { revert Hcd. unfold coll_drop_index, fail. destruct name as [|a s0].
+            - intro H. inversion H as [[H1 H2]].
+              rewrite (filter_id_when_none_dropped _ H2). apply coll_eta.
+            - destruct (String.eqb (String a s0) "_id_"); [discriminate|].
+              destruct (find_index (c_indexes x) (String a s0)); discriminate. }
+          subst x'. subst sc'. split; [|exact Hok].
+          symmetry. apply sc_set_same. rewrite (sc_get_abs _ _ Hu), Hn. reflexivity.
+        * cbn [cat_ns]. split.
+          -- rewrite (abs_ns_set _ _ _ Hu), Hsim. reflexivity.
+          -- apply ns_ok_set; auto. intros _. split; [|split]; auto.
+      + auto.
+  Qed.
+
+  Lemma index_spec_defof ni : s_index_spec (defof ni) = index_spec ni.
+  Proof. reflexivity. Qed.
+
+  Theorem txn_list_indexes_refines c h :
+    user_ns h = true ->
+    match txn_list_indexes c h with
+    | inr e => RErr e
+    | inl l => RDocs l
+    end =
+    (if negb (valid_handle h true) then RErr EErr
+     else match sc_get (abs_ns (cat_ns c)) h with
+          | None => RDocs []
+          | Some sc => RDocs (stable_sort (fun a b => order a b [("name", false)])
+                                          (map s_index_spec (sc_defs sc)))
+          end).
+  Proof.
+    intro Hu. unfold txn_list_indexes.
+    destruct (negb (valid_handle h true)); [reflexivity|].
+    rewrite (sc_get_abs _ _ Hu).
+    destruct (ns_get (cat_ns c) h) as [x|]; cbn [option_map]; [|reflexivity].
+    rewrite abs_coll_eq. cbn [sc_defs]. rewrite map_map. reflexivity.
+  Qed.
+
+  (* ---------------------------------------------------------------- *)
+  (* Drop *)
+
+  Lemma drop_events_gen l : forall ol cl g,
+    let '(ol', cl', g') := drop_events ol cl g l in
+    g_oid g' = g_oid g /\ g_did g <= g_did g'.
+  Proof.
+    induction l as [|k t IH]; intros ol cl g; cbn [drop_events].
+    - split; [reflexivity|lia].
+    - unfold append_event.
+      specialize (IH (mkColl (c_docs ol ++ [(g_did g, event_doc (cl + 1) k "drop" None None)])
+                             (c_indexes ol)) (cl + 1) (mkGen (g_did g + 1) (g_oid g))).
+      destruct (drop_events _ _ _ t) as [[ol' cl'] g']. cbn [g_oid g_did] in IH.
+      destruct IH as [I1 I2]. split; [exact I1|lia].
+  Qed.
+
+  Theorem txn_drop_refines c g h :
+    ns_ok (g_did g) (cat_ns c) ->
+    let '(c', g', r) := txn_drop c g h in
+    if negb (valid_handle h false) || is_local h then c' = c /\ g' = g /\ r = inr EErr
+    else
+      abs_ns (cat_ns c') = filter (fun kc => negb (drop_matches h (fst kc))) (abs_ns (cat_ns c)) /\
+      g_oid g' = g_oid g /\ r = inl tt /\ ns_ok (g_did g') (cat_ns c') /\ g_did g <= g_did g'.
+  Proof.
+    intro Hok. unfold txn_drop.
+    destruct (negb (valid_handle h false)); cbn [orb]; [auto|].
+    destruct (is_local h); [auto|].
+    rewrite <- (abs_ns_filter (fun k => negb (drop_matches h k))).
+    destruct (map fst (filter (fun kc => drop_matches h (fst kc)) (cat_ns c))) as [|v vs] eqn:Hv.
+    - assert (Hf : filter (fun kc => drop_matches h (fst kc)) (cat_ns c) = []).
+      { destruct (filter (fun kc => drop_matches h (fst kc)) (cat_ns c)); [reflexivity|discriminate]. }
+      rewrite (filter_all _ _ Hf). repeat split; auto. lia.
+    - pose proof (drop_events_gen (v :: vs) (oplog_of c) (cat_clock c) g) as Hde.
+      destruct (drop_events (oplog_of c) (cat_clock c) g (v :: vs)) as [[ol cl] g1].
+      destruct Hde as [D1 D2].
+      assert (Hfin : forall ol2 cl2 g2,
+                (if String.eqb (snd h) "" then append_event ol cl g1 h "dropDatabase" None None
+                 else (ol, cl, g1)) = (ol2, cl2, g2) ->
+                g_oid g2 = g_oid g /\ g_did g <= g_did g2).
+      { intros ol2 cl2 g2. destruct (String.eqb (snd h) ""); unfold append_event; intro H;
+          inversion H; subst; cbn [g_oid g_did]; split; auto; lia. }
+      destruct (if String.eqb (snd h) "" then append_event ol cl g1 h "dropDatabase" None None
+                else (ol, cl, g1)) as [[ol2 cl2] g2].
+      destruct (Hfin ol2 cl2 g2 eq_refl) as [E1 E2]. cbn [cat_ns].
+      split; [|split; [|split; [|split]]]; auto.
+      + apply abs_ns_set_sys. reflexivity.
+      + apply ns_ok_set.
+        * apply ns_ok_filter. eapply ns_ok_mono; eauto.
+        * rewrite oplog_not_user. discriminate.
+  Qed.
+
 End RefineTxn.
